@@ -158,8 +158,15 @@ def run(lines, out, args):
                 got = "ok" if want == f[2] else "sro-mismatch " + want
             elif op in ("regU", "unregU", "regA", "unregA", "regS", "unregS", "regH", "unregH"):
                 ret = "None"
+                saved = {}
                 try:
                     v = comp(f[1])
+                    # (a call made from inside an event delivery may be about the very component of the call in progress, which
+                    # carries `__component_name__` / `__component_adapts__` for the duration of THAT call only: set them aside)
+                    if v is not None:
+                        for a_ in ("__component_name__", "__component_adapts__"):
+                            if a_ in v.__dict__:
+                                saved[a_] = v.__dict__.pop(a_)
                     nm = f[3] if op == "regU" else f[4] if op == "regA" else ""
                     if nm.startswith("#"):
                         # a name that is not a string: refused (ValueError) -- and nothing may have been written anywhere
@@ -220,6 +227,8 @@ def run(lines, out, args):
                         del v.__component_adapts__
                     if v is not None and "__component_name__" in v.__dict__:
                         del v.__component_name__
+                    if v is not None:
+                        v.__dict__.update(saved)
                 got = "%s [%s]" % (ret, " ".join(events))
             elif op == "reinit":
                 c.__init__(c.__name__, c.__bases__)
